@@ -47,3 +47,44 @@ def show(trace, lo, hi):
                 print('   ', n, brief_node(st['nodes'][n]))
             for (i, j), q in sorted(st['chan'].items()):
                 print('    ', i + '>' + j, json.dumps(q)[:300])
+
+
+def coverage(trace, cov=None):
+    """count what a trace exercised: action kinds, delivered message types, notable events"""
+    import collections
+    cov = cov if cov is not None else collections.Counter()
+    prev = None
+    for k, a, st in states(trace):
+        if prev is not None:
+            kind = a[0]
+            if kind == 'Deliver':
+                q = prev['chan'].get((a[1], a[2])) or [{'t': '?'}]
+                m = q[0]
+                t = m['t']
+                if t == 'aes':
+                    t += ':none' if not m.get('has') else (':first' if m.get('first') else '') + (':last' if m.get('last') else '') + (':mid' if not m.get('first') and not m.get('last') else '')
+                if t == 'nni':
+                    t += ':reset' if m['reset'] else (':ok' if m['success'] else ':nak')
+                if t == 'ae':
+                    t += ':hb' if not m['entries'] else ':ents'
+                cov['deliver:' + t] += 1
+            else:
+                cov[kind + (':' + a[2] if kind == 'Tick' else '')] += 1
+            for n, s in st['nodes'].items():
+                p = prev['nodes'].get(n)
+                if not p or not s.get('alive') or not p.get('alive'):
+                    continue
+                if s['role'] == 'L' and p['role'] != 'L': cov['ev:becomeLeader'] += 1
+                if s['role'] != 'L' and p['role'] == 'L': cov['ev:stepDown:' + kind] += 1
+                if s['log'][0]['idx'] > p['log'][0]['idx'] and kind == 'Tick': cov['ev:compacted'] += 1
+                if s.get('snap') != p.get('snap'):
+                    cov['ev:snap:' + ('serialize' if kind == 'Tick' else 'install' if s['snap'] not in ('garbage',) else 'garbage')] += 1
+                if len(s['log']) < len(p['log']) and kind == 'Deliver' and s.get('snap') == p.get('snap'): cov['ev:truncate'] += 1
+                if s['commit'] > p['commit']: cov['ev:commitAdvance:' + s['role']] += 1
+                if len(s['hist']) > len(p['hist']): cov['ev:apply'] += 1
+            if st['nexc'] != prev['nexc']: cov['ev:exception'] += 1
+            for c, v in st['cbs'].items():
+                if len(v) > len(prev['cbs'].get(c, [])):
+                    cov['cb:err%d' % v[-1][1]] += 1
+        prev = st
+    return cov
